@@ -135,12 +135,19 @@ def main():
         meta["detection_quick"] = det
         json.dump(meta, open(os.path.join(d, "meta.json"), "w"), indent=1)
         rows.append((sid, SEEDS[sid]["prop"], det))
-    print("| seed | target | caught by (quick tier) | missed by |")
-    print("|---|---|---|---|")
+    out = ["# Seeded changes: which quick checks report them", "",
+           "Generated by tools/mk_seed_meta.py from seeded/<id>/detection.txt (tools/seed_matrix.sh: apply the patch to /repo, run all 18",
+           "quick checks, undo). CAUGHT = exit 1 with a VIOLATION line; a *machinery exit* (exit 2) is listed separately: it happens when",
+           "the change makes results history dependent (violations do not reproduce on replay) or makes a call hang (watchdog) — both are",
+           "symptoms, but only exit 1 counts as detection.", "",
+           "| seed | target | what it needs to manifest | caught by (quick tier) | machinery exits | target check |", "|---|---|---|---|---|---|"]
     for sid, p, det in rows:
         caught = [k for k in props if det.get(k, "").startswith("CAUGHT")]
         mach = [k for k in props if det.get(k, "") == "MACHINERY"]
-        print(f"| {sid} | {p} | {' '.join(caught) or '-'}{(' (machinery exit: ' + ' '.join(mach) + ')') if mach else ''} | {'target missed!' if p not in caught else ''} |")
+        verdict = "caught" if p in caught else ("not run yet" if not det else "**missed**")
+        out.append(f"| {sid} | {p} | {SEEDS[sid]['needs']} | {' '.join(caught) or '-'} | {' '.join(mach) or '-'} | {verdict} |")
+    open("/verif/seeded/RESULTS.md", "w").write("\n".join(out) + "\n")
+    print("\n".join(out[8:]))
 
 if __name__ == "__main__":
     main()
